@@ -24,6 +24,9 @@ type medium struct {
 	pg      *pgfake.Server
 	mem     db.Db
 	handles []db.Db
+	// tooLong: (type, session, key) triples for which this medium refused a write because the file name
+	// would be too long - the backend does not accept them, reads of them are not judged
+	tooLong map[string]bool
 }
 
 func newMedium(kind int) *medium {
